@@ -938,6 +938,81 @@ def run(chk, replay=None):
                     p.b = Fraction(0)
         one_case('inv', dom, pieces, 'random')
 
+    # ---- 3c'. inverse transforms of COMBINED rational spectra (one fraction, order >= 2, multi-term numerator): sums of decaying
+    #           exponentials, damped sinusoids (conjugate pole pairs), two-sided signals, a double pole -- from f and from omega.
+    #           These reach the partial-fraction retry of BilateralForwardTransformer.doit; judged against the spec transform of
+    #           the separate terms, and the damped sinusoids also by the round trip on the real code.
+    def cp(c, n, are, aim=0, a=1):
+        return Piece(c, 'none', 0, 'cpole:%d:%s:%s' % (n, fstr(Fraction(are)), fstr(Fraction(aim))), a, 0)
+    rat_sets = [[cp((1, 0), 1, 1), cp((1, 0), 1, 2)],                                    # e^-t u + e^-2t u
+                [cp((Fraction(1, 2), 0), 1, 2, 3), cp((Fraction(1, 2), 0), 1, 2, -3)],  # e^-2t cos(3t) u
+                [cp((0, Fraction(-1, 2)), 1, 1, 2), cp((0, Fraction(1, 2)), 1, 1, -2)],  # e^-t sin(2t) u
+                [cp((1, 0), 1, 1), cp((-1, 0), 1, 3, 0, -1)],                            # e^-t u(t) - e^{3t} u(-t)
+                [cp((2, 0), 1, 1), cp((1, 0), 2, 2)],                                    # 2 e^-t u + t e^-2t u
+                [cp((1, 0), 1, 1), cp((3, 0), 1, 2), cp((-2, 0), 1, 5)]]
+    if not quick:
+        for i in range(12):
+            crng = random.Random('C12-%d-rat-%d' % (chk.seed, i))
+            rat_sets.append([cp(rand_coef(crng), crng.choice([1, 1, 2]), crng.choice([1, 2, 3, 5]), crng.choice([0, 0, 2, -3]),
+                                crng.choice([1, 1, -1])) for _ in range(crng.choice([2, 3]))])
+    else:
+        crng = random.Random('C12-%d-rat' % chk.seed)
+        rat_sets.append([cp(rand_coef(crng), 1, crng.choice([1, 2, 3, 5]), crng.choice([0, 2, -3]), crng.choice([1, -1])) for _ in range(2)])
+    for pieces in rat_sets:
+        for dom in ('f', 'omega'):
+            chk.count('rational-spectra', dom)
+            toks = term_tokens([t for p in pieces for t in p.terms()])
+            canon_key = ('rat', dom, tuple(p.key() for p in pieces))
+            try:
+                e0 = mk(' + '.join(p.text(dom) for p in pieces), dom).sympy
+                num, den = S.fraction(S.together(e0))
+                comb = S.expand(num) / S.expand(den)
+                res = limited(lambda: MK[dom](comb)(LV['t']))
+            except LcapyTimeout:
+                chk.case(canon_key, False)
+                chk.count('lcapy', 'error:timeout')
+                continue
+            except Exception as ex:   # noqa
+                chk.case(canon_key, False)
+                chk.count('lcapy', 'error:' + type(ex).__name__)
+                continue
+            if res.sympy.has(S.Integral) or res.sympy.has(S.InverseFourierTransform):
+                chk.case(canon_key, False)
+                chk.count('lcapy', 'unevaluated')
+                continue
+            lrng = random.Random(repr(canon_key))
+            for attempt in range(6):
+                pi0, dt0, x0 = sample_point(lrng)
+                try:
+                    ents = obs_of(res, 't', x0, pi0, dt0)
+                except Resample:
+                    continue
+                except CanonFail:
+                    chk.case(canon_key, False)
+                    chk.count('canon', 'canon-fail')
+                    break
+                v = drv.ask1('ft.judge inv %s %s %s %s | %s | %s' % (dom, fstr(pi0), fstr(dt0), fstr(x0), toks, ' ; '.join(ents)))
+                if v == 'resample':
+                    continue
+                chk.case(canon_key, True)
+                chk.count('rational-spectra', 'ok' if v.startswith('true') else ('violation' if v.startswith('false') else v))
+                if v.startswith('false'):
+                    counterexamples[0] += 1
+                    chk.counterexample({'kind': 'rational-spectrum', 'direction': 'inv', 'variable': dom, 'terms': len(pieces),
+                                        'two_sided': any(p.a < 0 for p in pieces), 'double_pole': any(':2:' in p.kind for p in pieces)},
+                                       {'input': {'direction': 'inv', 'variable': dom, 'expression': str(comb), 'terms': toks},
+                                        'lcapy': str(res.sympy)[:400], 'spec': 'inverse transform of the combined rational spectrum differs from the '
+                                        'sum of the inverse transforms of its partial fractions: ' + v,
+                                        'point': {'pi': fstr(pi0), 'dt': fstr(dt0), 'x0': fstr(x0)}},
+                                       'inverse Fourier transform of a combined rational spectrum (variable %s) is wrong' % dom)
+                break
+    # damped sinusoids and sums through the forward transform and back (the real code combines them into one fraction)
+    for pcs in ([Piece((1, 0), 'cos', Fraction(3, 2), 'expu:0:2:0', 1, 0)], [Piece((1, 0), 'sin', 1, 'expu:0:1:0', 1, 0)],
+                [Piece((1, 0), 'none', 0, 'expu:0:1:0', 1, 0), Piece((1, 0), 'none', 0, 'expu:0:2:0', 1, 0)],
+                [Piece((1, 0), 'none', 0, 'expu:0:1:0', 1, 0), Piece((-1, 0), 'none', 0, 'expu:0:3:0', -1, 0)]):
+        for dom in ('f', 'omega'):
+            chk.count('deterministic', 'damped-sinusoid/sum roundtrip from ' + dom)
+            one_case('fwd', dom, pcs, 'rational-roundtrip', with_roundtrip=True)
     tick('random-inverse')
     # ---- 3d. conversions between the frequency variables (table + real code)
     conv_exprs = [Piece((1, 0), 'none', 0, 'cpole:1:3:0', 1, 0), Piece((1, 0), 'none', 0, 'sinc', 1, 0),
